@@ -250,6 +250,10 @@ func locateEnc(t reflect.Type, v reflect.Value, ref, act *oracle.Node, chain []s
 	}
 	switch ref.Kind {
 	case 's':
+		if act.IllFormed && !ref.IllFormed {
+			// raw ill-formed bytes where the reference wrote an escape: not a spelling of the same token
+			return &locRes{"token:ill-formed-utf8", ctxOf(chain)}
+		}
 		if ref.Str != act.Str {
 			// a float under the ",string" option is a quoted number: the zero-padded-exponent
 			// spelling (e-07 vs e-7) is tolerated there as it is for bare number tokens
@@ -416,6 +420,9 @@ func locateEnc(t reflect.Type, v reflect.Value, ref, act *oracle.Node, chain []s
 		return &locRes{kind, ctxOf(chain)}
 	}
 	for i, k := range ref.Keys {
+		if i < len(act.RawKeys) && i < len(ref.RawKeys) && !utf8.ValidString(act.RawKeys[i]) && utf8.ValidString(ref.RawKeys[i]) {
+			return &locRes{"token:ill-formed-utf8", ctxOf(append(append([]string{}, chain...), "member-name"))}
+		}
 		var ev reflect.Value
 		var et reflect.Type
 		sub := chain
